@@ -5,7 +5,10 @@ from .. import observe as O
 PROP = 'C01'
 LEVEL = 'exploration'
 RULE = ('HIST: seeded, model-directed edit histories (add/remove/link/symlink/hide/boot) from a fresh image in a '
-        'swarm-drawn configuration, mastered to a SimDisk and reopened; a run is non-trivial if it has >= 3 accepted '
+        'swarm-drawn configuration (directory chains to depth 11, i.e. Rock Ridge relocation; in 12% of level-3/4 runs files split into '
+        'several extents at 2-20 KiB through the guarded threshold hook; restarts that reuse the PyCdlib object), mastered to a SimDisk and '
+        'reopened; after every edit and reopen the API view of every namespace (both read routes) is compared with the reference model, and '
+        'names removed by the edit must no longer resolve; a run is non-trivial if it has >= 3 accepted '
         'edits and >= 1 write+reopen; distinct = distinct (configuration, per-namespace shape, blob/boot counters) fingerprints')
 BUDGET = {'quick': 40, 'thorough': 900}
 PROBES = ['live_view_checked', 'reopen_view_checked', 'removed_name_lookups']
